@@ -115,6 +115,40 @@ claim('C02', 'other',
       'single-character flags for both A and a. Not decided: ungrammatical input, tokenisation priority, float().',
       TRUST + ' The SVG semantics oracle is transcribed by hand (checks/c02.py:svg_semantics).', 'DESIGN.md section 3 C02')
 
+claim('C05', 'other',
+      'abstract interpretation of the sibling scans (Path.point, T2t, t2T) on a symbolic 3-segment path with sign-label exploration; '
+      'hooked segment.length / segment.point to observe delegation',
+      'Decides for all fractions and all T in (0,1) at once: point(T) and T2t(T) select the same segment and local parameter on every '
+      'label path (so a boundary T cannot be assigned to different segments by the two scans), the selected segment is the first whose '
+      'cumulative fraction reaches T, t == (T - cumulative)/fraction, t2T(T2t(T)) == T; the 0/1 shortcuts and start/end getters; '
+      '_calc_lengths sums one length() per segment with the given tolerances and normalises by that very sum (zero total guarded); '
+      'iscontinuous / isclosedac / continuous_subpaths agree with the joint coincidences on all 4 coincidence patterns and partition the '
+      'path. Not decided: that the fractions are true arc-length fractions (C06), rounding at boundaries.',
+      TRUST, 'DESIGN.md section 3 C05')
+
+claim('C06', 'other',
+      'abstract interpretation with hooked quad / segment_length (call-site argument tables in both scipy configurations), symbolic '
+      'differentiation of the quadratic closed form over a normal form with sqrt/log atoms',
+      'Thin by nature: decides only definitional necessary conditions. In both configurations (scipy available / unavailable, switched '
+      'through the module flag) CubicBezier.length and Arc.length integrate |derivative(tau)| over exactly (t0,t1) with epsabs=error, resp. '
+      'call segment_length(self, t0, t1, point(t0), point(t1), error, min_depth, 0); segment_length halves the interval, shares the mid '
+      'point, recurses at depth+1 and returns the two-chord sum at the base; Path.length composes first partial + whole middle segments + '
+      'last partial for all index pairs of a 3-segment path; Line.length; the quadratic closed form satisfies ds/dt1 == speed(t1) and '
+      's(t1=t0) == 0 with c2 t^2+c1 t+c0 the squared speed, its degenerate branch and the three isnan-fallback returns are the exact '
+      'integrals. NOT decided (the heart of C06): accuracy of quadrature/recursion (1e-6 / 5e-3 brackets), for which float inputs the '
+      'closed form yields NaN or inf, additivity as a numeric statement.',
+      TRUST + ' Relations: sqrt(u)^2=u, d/dt of sqrt/log atoms.', 'DESIGN.md section 3 C06')
+
+claim('C07', 'other',
+      'abstract interpretation of inv_arclength with sign labels (range check), CFG loop-variant rule, abstract case analysis of one '
+      'bisection iteration with the midpoint rounded onto either bound, hooked recursion/t2T/delegation tables',
+      'Thin by nature. Decides: ValueError exactly for s outside [0,L] and before any other work, ilength(0)=0, ilength(L)=1; the loop '
+      'counter is incremented on every iteration path and falling out of the loop raises; when the computed midpoint equals a bound '
+      '(bracket cannot shrink) every path of the iteration leaves the loop (F05 was found this way); the Path branch recurses on '
+      '(segment, s - consumed length) with all four tolerances and maps back through t2T by index; the five ilength methods forward every '
+      'parameter. Not decided: inverse accuracy and monotonicity (numeric).',
+      TRUST + ' Float rounding is modelled only as: the midpoint may equal either bound.', 'DESIGN.md section 3 C07')
+
 ALL = ['C%02d' % i for i in range(1, 21)]
 for pid in ALL:
     if pid not in CLAIMED and pid not in NOT_APPLICABLE:
